@@ -161,6 +161,10 @@ fn continuation(script: &Script, dir: &TempDir, log: mrecordlog::MultiRecordLog,
 }
 
 pub struct Recovery {
+    /// peak bytes allocated by `open` on the opening thread
+    pub peak: usize,
+    /// 1 if a read accessor panicked on the returned log
+    pub accpanic: i64,
     pub out: String,
     pub errtext: String,
     pub st: Value,
@@ -178,15 +182,59 @@ pub fn recover(
     seed: u64,
     deadline: Duration,
 ) -> Recovery {
+    recover_with(script, files, &[], cont, seed, deadline)
+}
+
+/// A directory entry that is not one of the image's WAL files.
+#[derive(Clone, Debug)]
+pub enum Extra {
+    File { name: Vec<u8>, content: Vec<u8> },
+    Dir { name: Vec<u8> },
+    /// symlink to `target` (a path relative to the directory)
+    Symlink { name: Vec<u8>, target: Vec<u8> },
+}
+
+pub fn materialize_extras(extras: &[Extra], dir: &std::path::Path) {
+    use std::os::unix::ffi::OsStrExt;
+    for extra in extras {
+        match extra {
+            Extra::File { name, content } => {
+                std::fs::write(dir.join(std::ffi::OsStr::from_bytes(name)), content).unwrap();
+            }
+            Extra::Dir { name } => {
+                std::fs::create_dir_all(dir.join(std::ffi::OsStr::from_bytes(name))).unwrap();
+            }
+            Extra::Symlink { name, target } => {
+                let _ = std::os::unix::fs::symlink(
+                    std::ffi::OsStr::from_bytes(target),
+                    dir.join(std::ffi::OsStr::from_bytes(name)),
+                );
+            }
+        }
+    }
+}
+
+pub fn recover_with(
+    script: &Arc<Script>,
+    files: &BTreeMap<u64, FileImg>,
+    extras: &[Extra],
+    cont: bool,
+    seed: u64,
+    deadline: Duration,
+) -> Recovery {
     let script_in = script.clone();
     let files_in = files.clone();
+    let extras_in = extras.to_vec();
     let result = with_deadline(deadline, move || {
         let script = script_in;
         let dir = TempDir::new();
         Image::materialize(&files_in, &dir.path);
+        materialize_extras(&extras_in, &dir.path);
+        crate::alloc::reset_peak();
         verif::set_fault_plan(None);
         verif::start_recording();
         let opened = open_log(&dir.path, &script.policy);
+        let peak = crate::alloc::peak();
         let events = verif::take_events();
         let mut effects = Vec::new();
         let mut buf = BufModel::default();
@@ -195,7 +243,24 @@ pub fn recover(
         }
         match opened {
             Ok(log) => {
-                let st = observe(&script, &log, &dir.path, seed);
+                let observed = std::panic::catch_unwind(std::panic::AssertUnwindSafe(|| {
+                    observe(&script, &log, &dir.path, seed)
+                }));
+                let st = match observed {
+                    Ok(st) => st,
+                    Err(_) => {
+                        return Recovery {
+                            peak,
+                            accpanic: 1,
+                            out: "ok".to_string(),
+                            errtext: "accessor panicked".to_string(),
+                            st: Value::Null,
+                            io: io_json(&events),
+                            cont: Vec::new(),
+                            effects,
+                        };
+                    }
+                };
                 // the continuation depends only on the recovered abstract state, so that equal
                 // recoveries produce equal continuations (and can be grouped)
                 let cont_seed = crate::script::digest(st["qs"].to_string().as_bytes()) as u64;
@@ -205,6 +270,8 @@ pub fn recover(
                     Vec::new()
                 };
                 Recovery {
+                    peak,
+                    accpanic: 0,
                     out: "ok".to_string(),
                     errtext: String::new(),
                     st,
@@ -214,6 +281,8 @@ pub fn recover(
                 }
             }
             Err(err) => Recovery {
+                peak,
+                accpanic: 0,
                 out: if err == "panic" { "panic".to_string() } else { "err".to_string() },
                 errtext: err,
                 st: Value::Null,
@@ -224,6 +293,8 @@ pub fn recover(
         }
     });
     result.unwrap_or_else(|| Recovery {
+        peak: 0,
+        accpanic: 0,
         out: "timeout".to_string(),
         errtext: "deadline exceeded".to_string(),
         st: Value::Null,
